@@ -200,21 +200,25 @@ def plain : Raw → Val
   | .na => .none
   | .fail e => .exc e
 
+/-- `raise values[0]` when there is no non-exception among the six results -/
+def raiseOf : Val → Bool → Option Nat
+  | .exc e, true => some e
+  | _, _ => none
+
 /-- `async_get_traffic_and_status_data`: the state is updated first; the call raises `values[0]`
     (`Except.error e`) only when all six results are exceptions -/
 def sample (st : IgdSt) (tNow : Int) (r : Readings) : IgdSt × Except Nat Sample :=
-  let (cbr, vbr, rbr) := stepCounter true st.tLast tNow st.br r.br
-  let (cbs, vbs, rbs) := stepCounter true st.tLast tNow st.bs r.bs
-  let (cpr, vpr, rpr) := stepCounter false st.tLast tNow st.pr r.pr
-  let (cps, vps, rps) := stepCounter false st.tLast tNow st.ps r.ps
+  let s1 := stepCounter true st.tLast tNow st.br r.br
+  let s2 := stepCounter true st.tLast tNow st.bs r.bs
+  let s3 := stepCounter false st.tLast tNow st.pr r.pr
+  let s4 := stepCounter false st.tLast tNow st.ps r.ps
   let vst := plain r.status
   let vip := plain r.ip
-  let st' : IgdSt := ⟨tNow, cbr, cbs, cpr, cps⟩
-  let out : Except Nat Sample :=
-    match vbr, vbs.isExc && vpr.isExc && vps.isExc && vst.isExc && vip.isExc with
-    | .exc e, true => .error e
-    | _, _ => .ok ⟨vbr, vbs, vpr, vps, vst, vip, rbr, rbs, rpr, rps⟩
-  (st', out)
+  let allExc := s1.2.1.isExc && s2.2.1.isExc && s3.2.1.isExc && s4.2.1.isExc && vst.isExc && vip.isExc
+  (⟨tNow, s1.1, s2.1, s3.1, s4.1⟩,
+   match raiseOf s1.2.1 allExc with
+   | some e => .error e
+   | none => .ok ⟨s1.2.1, s2.2.1, s3.2.1, s4.2.1, vst, vip, s1.2.2, s2.2.2, s3.2.2, s4.2.2⟩)
 
 /-- a whole series from the freshly constructed profile (`t0` = construction time) -/
 def runSeries (st : IgdSt) : List (Int × Readings) → List (Except Nat Sample)
